@@ -15,4 +15,6 @@ func init() {
 	reg.Register("c16.history.builder", "C16", builderHistory)
 	reg.Register("c16.buffers.env", "C16", buffersEnv)
 	reg.Register("c16.buffers.signed", "C16", buffersSigned)
+	reg.Register("c16.parsebuf.signed", "C16", parseBufSigned)
+	reg.Register("c16.parsebuf.env", "C16", parseBufEnv)
 }
